@@ -20,6 +20,7 @@ import (
 	"github.com/iden3/go-schema-processor/v2/processor"
 	jsonproc "github.com/iden3/go-schema-processor/v2/processor/json"
 	"github.com/iden3/go-schema-processor/v2/verifiable"
+	"github.com/piprate/json-gold/ld"
 	jsonschema "github.com/santhosh-tekuri/jsonschema/v5"
 
 	"vharness/common"
@@ -104,6 +105,17 @@ func exactClass(in *Input) (cls int) {
 	return classify(sch.Validate(v))
 }
 
+// stubLoader serves one schema text the way the real loaders do (decoded JSON document)
+type stubLoader struct{ text string }
+
+func (l stubLoader) LoadDocument(u string) (*ld.RemoteDocument, error) {
+	var doc interface{}
+	if err := ej.Unmarshal([]byte(l.text), &doc); err != nil {
+		return nil, err
+	}
+	return &ld.RemoteDocument{DocumentURL: u, Document: doc}, nil
+}
+
 type noParser struct{}
 
 func (noParser) ParseClaim(ctx context.Context, c verifiable.W3CCredential, o *processor.CoreClaimOptions) (*core.Claim, error) {
@@ -126,6 +138,15 @@ func runImpl(in *Input) (cls int, msg string) {
 	case 1:
 		p := jsonproc.New(processor.WithValidator(jsonv.Validator{}), processor.WithParser(noParser{}))
 		err = p.ValidateData([]byte(in.Data), []byte(in.Schema))
+	case 3:
+		// facade path Load -> ValidateData: the schema is served by a stub document loader
+		p := jsonproc.New(processor.WithValidator(jsonv.Validator{}), processor.WithParser(noParser{}),
+			processor.WithDocumentLoader(stubLoader{in.Schema}))
+		loaded, lerr := p.Load(context.Background(), "https://example.com/schemas/served.json")
+		if lerr != nil {
+			return cOtherErr, "Load: " + lerr.Error()
+		}
+		err = p.ValidateData([]byte(in.Data), loaded)
 	default:
 		p := jsonproc.New(processor.WithParser(noParser{}))
 		err = p.ValidateData([]byte(in.Data), []byte(in.Schema))
@@ -557,7 +578,11 @@ func (g *gen) writeShards() error {
 			if in.Stream != "normal" {
 				obs = in.Expect
 			}
-			cs = append(cs, fmt.Sprintf("mkc %d %d %s %s %d", i, in.Mode, sn, dt, obs))
+			cm := in.Mode
+			if cm == 3 {
+				cm = 1 // Load must hand back the served schema: same model as the facade on the served text
+			}
+			cs = append(cs, fmt.Sprintf("mkc %d %d %s %s %d", i, cm, sn, dt, obs))
 			g.rep.Case(name, i, in)
 		}
 		f.Add(defs...)
@@ -589,6 +614,8 @@ func Run(cfg *common.Config) (*common.Report, error) {
 	g.suiteStream()
 	g.historyStream(scs, cfg.Pick(12, 300))
 	g.bigNumberStream()
+	g.loadStream(scs, cfg.Pick(40, 600))
+	g.refDataStream()
 	for i, in := range g.cases {
 		if i%83 == 0 {
 			rep.Sample(map[string]any{"input": in, "observed": className[g.obs[i]]})
